@@ -186,6 +186,11 @@ def evaluate_rerun(prop, case):
     res.run = run
     hist = History(run)
     viols = []
+    if run.seq_rerun is None:
+        # the first run got stuck: nothing to judge here (C03's business)
+        res.violations, res.shape, res.nontrivial = [], shape(run), False
+        res.vtime = run.loop_stats['vtime']
+        return res
     if run.outcome not in ('ret', 'exc'):
         viols.append(oracles.Violation(
             prop, 'second-run-does-not-terminate', 'rerun',
